@@ -66,7 +66,7 @@ class AtomsMD(Ext):
                 v = a[0]
                 if not isinstance(v, Tensor) or v.shape != (self.k, 3):
                     raise Unsupported("set_positions with a wrong shape")
-                self.positions = v.copy()
+                self.positions.data[:] = v.data          # ase: set_array copies INTO the existing array (aliases of atoms.positions see it)
             return Builtin("set_positions", sp)
         if name == "set_momenta":
             def sm(I_, a, k):
@@ -75,7 +75,7 @@ class AtomsMD(Ext):
                 v = a[0]
                 if not isinstance(v, Tensor) or v.shape != (self.k, 3):
                     raise Unsupported("set_momenta with a wrong shape")
-                self.momenta = v.copy()
+                self.momenta.data[:] = v.data
                 self.momenta_version += 1
             return Builtin("set_momenta", sm)
         if name == "get_kinetic_energy":
@@ -88,7 +88,7 @@ class AtomsMD(Ext):
                 if a[0] != "momenta":
                     raise Unsupported(f"set_array({a[0]!r}) (MD view)")
                 self.log.append(("set_array", "momenta"))
-                self.momenta = a[1].copy()
+                self.momenta.data[:] = a[1].data
                 self.momenta_version += 1
             return Builtin("set_array", sa)
         if name == "get_number_of_degrees_of_freedom":
@@ -100,7 +100,10 @@ class AtomsMD(Ext):
     def py_setattr(self, I, name, value):
         if name == "positions":
             self.log.append(("positions=",))
-            self.positions = value.copy() if isinstance(value, Tensor) else value
+            if isinstance(value, Tensor) and value.shape == self.positions.shape:
+                self.positions.data[:] = value.data
+            else:
+                self.positions = value
             return
         raise Unsupported(f"set Atoms.{name} (MD view)")
 
